@@ -1776,7 +1776,7 @@ class Interp:
             if isinstance(idx, slice):
                 return self._slice_sseq(o, idx)
             return o.get(idx)
-        if isinstance(o, (tuple, list, str)):
+        if isinstance(o, (tuple, list, str, range)):
             if z3.is_expr(idx):
                 idx = z3.simplify(idx)
                 if z3.is_int_value(idx):
